@@ -85,8 +85,11 @@ class Ctx:
                 len(self.nontrivial) % 29 == 0
             ):
                 js = jsonable(spec)
-                if len(json.dumps(js)) <= 900:
+                text = json.dumps(js)
+                if len(text) <= 900:
                     self.samples.append(js)
+                elif sum(1 for x in self.samples if isinstance(x, dict) and "truncated_case" in x) < 2:
+                    self.samples.append({"truncated_case": text[:1200]})
             self.nontrivial.add(d)
         for lab in labels:
             self.hist[lab] += 1
@@ -228,6 +231,7 @@ def _shard_entry(args):
 
 def run_sharded(ctx, modname, fname, nshards):
     """Run mod.fname(shard_ctx) in nshards fresh processes and merge into ctx."""
+    nshards = int(os.environ.get("VERIF_SHARDS") or nshards)  # maintenance knob (mutation sweeps run several checks side by side)
     args = [(modname, fname, ctx.pid, ctx.tier, ctx.seed, i, nshards) for i in range(nshards)]
     if nshards == 1:
         results = [_shard_entry(args[0])]
